@@ -346,6 +346,22 @@ fn build_cases(seed: u64, thorough: bool) -> (Vec<Case>, Vec<String>, Vec<PrepFa
         let (t, ca) = cfg(rng.below(4));
         cases.push(Case { family: "grammar", desc: format!("{}#{}", d.desc, case), doc: Doc { bytes, tolerant: t, cached: ca } });
     }
+    // encrypted documents of every handler variant (empty user password, so they open without one), plain and
+    // mutated; one mutation shortens stored strings / stream data so that cipher texts lose their IV or padding
+    for case in 0..(500 * scale) as u64 {
+        let mut rng = Rng::derive(seed, "c01.encrypted", case);
+        let opt = crate::c06::doc::rand_options(&mut rng);
+        let owner = crate::c06::doc::rand_password(&mut rng, opt.variant.r);
+        let d = crate::c06::doc::build(&mut rng, &opt, b"", &owner);
+        let bytes = match rng.below(5) {
+            0 => d.bytes.clone(),
+            1 => corpus::mutate_bytes(&mut rng, &d.bytes),
+            2 => corpus::mutate_tokens(&mut rng, &d.bytes),
+            _ => corpus::shorten_strings(&mut rng, &d.bytes),
+        };
+        let (t, ca) = cfg(rng.below(4));
+        cases.push(Case { family: "encrypted", desc: format!("{}#{}", d.desc, case), doc: Doc { bytes, tolerant: t, cached: ca } });
+    }
     for case in 0..(400 * scale) as u64 {
         let mut rng = Rng::derive(seed, "c01.soup", case);
         let bytes = if rng.chance(1, 5) { let n = rng.usize(600); rng.bytes(n) } else { soup(&mut rng) };
